@@ -132,7 +132,8 @@ def run(ctx):
             # builder coordinates are not dyadic: the float32 shift subtraction / 1/neff product may round
             exact_case = exact_case and cfg['n_glass'] == cfg['n_environment']
         else:
-            rows = gcommon.gen_matrix(rng, exact, closed=rng.random() < 0.8, max_pts=40 if ctx.tier == 'quick' else 200)
+            rows = gcommon.gen_matrix(rng, exact, closed=rng.random() < 0.8, max_pts=40 if ctx.tier == 'quick' else 200,
+                                      digits=cfg['output_digits'])
             src = 'generated'
             exact_case = exact
         pre_on = rng.random() < 0.1
